@@ -301,8 +301,13 @@ def check_case(qt, mb, out_bytes, stats, desc):
         if qb is not None and qi_ is not None and qw is not None:
           want = (qi_[0] * qw[0]).astype(np.float32).flatten()
           got = qb[0].flatten()
-          if not (len(got) in (1, len(want)) and np.array_equal(got, want if len(got) == len(want) else want[:1])
-                  and not np.any(qb[1])):
+          # the stored bias scale is float32(input_scale * weight_scale) where the
+          # library may still hold the input scale in binary64 (scales derived from a
+          # fixed-range producer): either rounding of the exact product is accepted
+          ref = want if len(got) == len(want) else want[:1]
+          ok = len(got) in (1, len(want)) and bool(np.all(
+              np.abs(got.astype(np.float64) - ref.astype(np.float64)) <= np.spacing(np.abs(ref)).astype(np.float64)))
+          if not (ok and not np.any(qb[1])):
             V('C04:bias-scale', f'sg{gi} op{k} {key}: bias scale != input scale * weight scale or zp != 0')
       # activation operands vs reference formula on the statistics
       if stats:
